@@ -1,29 +1,62 @@
 """
 C09, request-port part: every datagram sent to the TFTP request port is answered with nothing, exactly one
-well-formed ERROR, or - for a read request decoded as RFC 1350/2347 prescribe - a transfer start, and never
-reaches the catch-all of TftpServer._run.
+well-formed ERROR, or - for a read request decoded as RFC 1350/2347 prescribe - a transfer start; no bytes of a
+datagram reach the catch-all of TftpServer._run; the server keeps serving afterwards.
 
-Runs the REAL TftpServer._process_request on a server object whose `_socket` is a recording fake and whose
-`_handle_read` is replaced ON THE INSTANCE by a recorder (no transfer thread is started), and compares with the
-extracted model coq/theories/Tftp/RequestPort.v (driver ocaml/bin/c09port, entry C09/PortEntry.v).
+The REAL serve loop TftpServer._run is run (in this thread) on a never-started TftpServer whose `_socket` is a
+scripted fake: recvfrom hands out the case's datagram and then a liveness probe (a write request from an ordinary
+address, which must be answered with ERROR 2) and finally asks the loop to stop; sendto records the call and, like
+Linux, raises OSError(EINVAL) for a destination with port 0 (a datagram with source port 0 is delivered, but cannot
+be answered) - the fault dimension of this check.  Transfers are really constructed by the real `_handle_read`
+(the constructor of `_TftpReadRequest` runs in the request-port thread); `socket`, `time` and `_TftpReadRequest` in
+the module namespace of vinegar.tftp.server are replaced IN THIS PROCESS (as harness/fake_net.py does) so that the
+transfer thread talks to a silent fake socket under a virtual clock and can be joined; /repo is not edited.
+Observations are compared with the extracted model coq/theories/Tftp/RequestPort.v (driver ocaml/bin/c09port, entry
+C09/PortEntry.v).
 
-Used by harness/c09.py through `port_checks(tier, rng, report)`; `python harness/c09_port.py [--tier T]` runs
-it alone.
+Clauses: C09:port_reaction, C09:port_more_than_one_reaction, C09:internal_error_path, C09:port_stops_serving, and
+C09:port_reply_unsendable_logged - the OSError of a reply that cannot be sent is logged with a traceback by the
+catch-all (known finding D22; reported for source-port-0 cases only, see `match_known`).
+
+Used by harness/c09.py through `port_checks(tier, rng, report)`; `python harness/c09_port.py [--tier T]` runs it alone.
 """
+import errno
+import io
 import itertools
 import logging
-import sys
+import socket as real_socket
+import threading
 import time
+import types
 
 import common
 from common import sx, unsx, names
 import tftp_common as T
+import fake_net
 from vinegar.tftp import server as S
 from vinegar.tftp.protocol import TransferMode
 
-REQ = ("::1", 40001, 0, 0)
 DST = ("::1", 69, 0, 0)
+REQ = ("::1", 40001, 0, 0)
+REQ0 = ("2001:db8::9", 0, 0, 0)          # source port 0: cannot be replied to
+PROBE_ADDR = ("::1", 40002, 0, 0)
+PROBE = b"\x00\x02probe\x00octet\x00"   # a write request: the live server answers ERROR 2
+SOURCES = [REQ, REQ0]
+# ancillary data of recvmsg when the server uses IPV6_RECVPKTINFO, and the server address the transfer must get:
+# none at all (legal: the option may not be honoured), the RFC 3542 in6_pktinfo (16 address bytes + interface
+# index), an unrelated control message before it, only an unrelated one
+_PKT = real_socket.inet_pton(real_socket.AF_INET6, "2001:db8::5") + b"\x02\x00\x00\x00"
+ANCILLARY = {
+    None: ([], DST),                                             # server without pktinfo: recvfrom is used
+    "none": ([], DST),
+    "pktinfo": ([(real_socket.IPPROTO_IPV6, real_socket.IPV6_PKTINFO, _PKT)], ("2001:db8::5",) + DST[1:]),
+    "other+pktinfo": ([(real_socket.SOL_SOCKET, 29, b"\x00" * 16),
+                       (real_socket.IPPROTO_IPV6, real_socket.IPV6_PKTINFO, _PKT)], ("2001:db8::5",) + DST[1:]),
+    "other": ([(real_socket.IPPROTO_IPV6, 52, b"\x00" * 4)], DST),
+}
+PKTINFO_KINDS = [None, "none", "pktinfo", "other+pktinfo", "other"]
 ALPHABET = [0, 1, 2, 3, 4, 5, 6, 8, 9, 0x61, 0xff]
+UNSENDABLE_CLAUSE = "C09:port_reply_unsendable_logged"
 
 HANDLER_SETS = [
     [("const", True)],
@@ -35,10 +68,11 @@ HANDLER_SETS = [
     [("const", True), ("const", True), ("const", True)],
     [],
 ]
+SERVING_SETS = [0, 3, 6]                  # handler sets that can serve the file "f"
 
 
 class PredHandler(S.TftpRequestHandler):
-    """scripted request handler: can_handle is a predicate on the decoded filename"""
+    """scripted request handler: can_handle is a predicate on the decoded filename; handle returns a tiny file"""
     def __init__(self, spec):
         self.spec = spec
 
@@ -52,7 +86,7 @@ class PredHandler(S.TftpRequestHandler):
         return name == arg
 
     def handle(self, filename, client_address, server_address, context):
-        raise AssertionError("no transfer is run by the request-port check")
+        return io.BytesIO(b"xy")
 
 
 def handler_sx(spec):
@@ -60,69 +94,151 @@ def handler_sx(spec):
     return [0, bool(arg)] if kind == "const" else ([1, arg] if kind == "prefix" else [2, arg])
 
 
-class _RecSock:
-    def __init__(self, events):
-        self.events = events
+class _ServerSock:
+    """the request-port socket: scripted recvfrom, recording sendto that fails for port 0"""
+    def __init__(self, port):
+        self.port = port
+        self.script = []
+        self.current = -1
+
+    def getsockname(self):
+        return DST
+
+    def settimeout(self, t):
+        pass
+
+    def recvfrom(self, n):
+        if self.script:
+            self.current += 1
+            data, addr = self.script.pop(0)
+            return bytes(data)[:n], addr
+        self.port.server._shutdown_requested = True     # what stop() does; the loop leaves at its next round
+        raise real_socket.timeout("timed out")
+
+    def recvmsg(self, n, ancsize=0):
+        """used when the server has IPV6_RECVPKTINFO: ancillary data as the scripted kind says"""
+        data, addr = self.recvfrom(n)
+        return data, list(ANCILLARY[self.port.pktinfo][0]), 0, addr
 
     def sendto(self, data, addr):
-        self.events.append(("send", bytes(data), addr))
+        self.port.events.append((self.current, "send", bytes(data), addr))
+        if addr[1] == 0:
+            raise OSError(errno.EINVAL, "Invalid argument")
+
+    def close(self):
+        pass
+
+
+class _TransferSock(fake_net.FakeSock):
+    """socket of a started transfer: silent peer; the transfer itself is not under test here"""
+    def sendto(self, data, addr):
+        pass
 
 
 class _ExcLog(logging.Handler):
+    """log records with exc_info written by the serve-loop thread (this thread)"""
     def __init__(self):
         super().__init__()
-        self.records = []
+        self.port = None
+        self.me = threading.get_ident()
 
     def emit(self, record):
-        if record.exc_info:
-            self.records.append(record.exc_info[0].__name__ if record.exc_info[0] else "exc")
+        if record.exc_info and record.thread == self.me and self.port is not None:
+            cls = record.exc_info[0].__name__ if record.exc_info[0] else "exc"
+            self.port.events.append((self.port.sock.current, "logexc", cls))
 
 
 class Port:
-    """one real TftpServer per handler set, never started"""
+    """one real TftpServer per handler set, never started; its _run is called for each case"""
     def __init__(self, specs):
         self.specs = specs
         self.events = []
+        self.created = []
         self.handlers = [PredHandler(s) for s in specs]
         self.server = S.TftpServer(self.handlers, bind_address="::1", bind_port=0)
-        self.server._socket = _RecSock(self.events)
-        hs = self.handlers
-        ev = self.events
+        self.sock = _ServerSock(self)
 
-        def recorder(filename, transfer_mode, options, client_address, server_address, handler_function,
-                     handler_context):
-            owner = getattr(handler_function, "__self__", None)
-            idx = next((i for i, h in enumerate(hs) if h is owner), 99)
-            ev.append(("start", filename, transfer_mode, dict(options), client_address, server_address, idx))
-        self.server._handle_read = recorder       # instance attribute: /repo is not edited
-
-    def react(self, datagram, exclog):
-        """canonical observation of what the port did for one datagram"""
+    def react(self, items, exclog, pktinfo=None):
+        """canonical observations of what ONE run of the serve loop did for the datagrams `items` = [(datagram,
+        source address), ...] arriving one after the other, followed by a liveness probe; one observation per item"""
         del self.events[:]
-        n0 = len(exclog.records)
+        del self.created[:]
+        exclog.port = self
+        srv = self.server
+        self.pktinfo = pktinfo
+        self.sock.script = [(bytes(d), src) for (d, src) in items] + [(PROBE, PROBE_ADDR)]
+        self.sock.current = -1
+        srv._socket = self.sock
+        srv._have_pktinfo = pktinfo is not None
+        srv._shutdown_requested = False
+        port = self
+        clock = [0.0]
+        want_dst = ANCILLARY[pktinfo][1]
+
+        class Rec(port.real_request_class):
+            def __init__(self, filename, transfer_mode, options, client_address, server_address, handler_function,
+                         *rest):
+                super().__init__(filename, transfer_mode, options, client_address, server_address, handler_function,
+                                 *rest)
+                owner = getattr(handler_function, "__self__", None)
+                idx = next((i for i, h in enumerate(port.handlers) if h is owner), 99)
+                port.created.append(self)
+                port.events.append((port.sock.current, "start", filename, transfer_mode, dict(options),
+                                    client_address, server_address, idx))
+        shim = types.SimpleNamespace(**{k: getattr(real_socket, k) for k in dir(real_socket) if not k.startswith("__")})
+        shim.socket = lambda **k: _TransferSock([], clock, [])
+        old = (S.socket, S.time, S._TftpReadRequest)
+        S.socket, S.time, S._TftpReadRequest = shim, types.SimpleNamespace(monotonic=lambda: clock[0]), Rec
+        escaped = None
+        hang = False
         try:
-            self.server._process_request(bytes(datagram), REQ, DST)
-        except Exception:                          # what TftpServer._run would log with logger.exception
-            self.events.append(("logexc",))
-        obs = []
+            try:
+                srv._run()
+            except BaseException as ex:                 # nothing may escape the serve loop
+                escaped = type(ex).__name__
+            for r in self.created:
+                r._thread.join(20)
+                hang = hang or r._thread.is_alive()
+        finally:
+            S.socket, S.time, S._TftpReadRequest = old
+            srv._shutdown_requested = False
+        n = len(items)
+        obs = [[] for _ in range(n)]
+        probe_events = []
         for e in self.events:
-            if e[0] == "send":
-                p = T.parse_packet(e[1])
-                obs.append(p if (p[0] == 5 and e[2] == REQ) else [99, e[1]])
-            elif e[0] == "start":
-                _, fn, mode, opts, cli, srv, idx = e
-                ok = cli == REQ and srv == DST and isinstance(mode, TransferMode)
-                if not ok:
-                    obs.append([99, repr(e).encode("latin-1", "replace")[:200]])
+            if e[0] >= n or e[0] < 0:
+                probe_events.append(e)
+                continue
+            src = items[e[0]][1]
+            if e[1] == "send":
+                p = T.parse_packet(e[2])
+                obs[e[0]].append(p if (p[0] == 5 and e[3] == src) else [99, e[2]])
+            elif e[1] == "start":
+                _, _, fn, mode, opts, cli, dst, idx = e
+                if cli == src and dst == want_dst and isinstance(mode, TransferMode):
+                    obs[e[0]].append([1, fn.encode("latin-1", "replace"), int(mode),
+                                      [[k.encode("latin-1", "replace"), v.encode("latin-1", "replace")]
+                                       for k, v in opts.items()], idx])
                 else:
-                    obs.append([1, fn.encode("latin-1", "replace"), int(mode),
-                                [[k.encode("latin-1", "replace"), v.encode("latin-1", "replace")] for k, v in opts.items()],
-                                idx])
+                    obs[e[0]].append([99, repr(e[2:]).encode("latin-1", "replace")[:200]])
             else:
-                obs.append([4])
-        if len(exclog.records) > n0:
-            obs.append([4])
+                obs[e[0]].append([4])
+        last_taken = min(self.sock.current, n - 1)
+        for i in range(last_taken + 1, n):                # never taken off the socket: the loop had ended
+            obs[i].append([7])
+        # alive = the probe was taken off the socket and answered (what it is answered with is a case of its own)
+        alive = (not self.sock.script and any(e[1] == "send" and e[3] == PROBE_ADDR for e in probe_events))
+        if n and last_taken == n - 1:
+            if escaped is not None:
+                obs[n - 1].append([99, b"exception escaped TftpServer._run: " + escaped.encode()])
+            if hang:
+                obs[n - 1].append([99, b"transfer thread did not end"])
+            if not alive:
+                obs[n - 1].append([7])
         return obs
+
+
+Port.real_request_class = S._TftpReadRequest
 
 
 # ----------------------------------------------------------------------------- generators
@@ -192,68 +308,172 @@ def long_packets(rng, count):
         yield d + b"\x00"
 
 
-def gen_cases(tier, rng):
+# option values that are near-numbers: prefix like an integer, signs, padding, other radices, other digits,
+# underscores, leading zeros, empty, huge (as bytes on the wire; non-ASCII bytes are dropped by the decoder)
+NEAR_NUMBERS = [b"1024x", b"5s", b"1e3", b"512.0", b"8 ", b" 8", b"8\n", b"8\t", b"+8", b"-8", b"0x10", b"0o10", b"1_0",
+                b"1__0", b"08", b"0", b"00", b"", b"8,0", b"8;", b"1 0", "\u0661\u0662".encode("utf-8"), "\uff18".encode("utf-8"),
+                b"8\xff", b"\xff8", b"9" * 40, b"1" + b"0" * 300, b"1e", b"1.", b"1L", b"1j", b"True", b"None", b"8\x0b"]
+OPTION_NAMES_3 = [b"blksize", b"BLKSIZE", b"BlkSize", b"timeout", b"TIMEOUT", b"TimeOut", b"tsize", b"TSIZE", b"tSiZe"]
+
+
+def near_number_rrqs(tier, rng):
+    """read requests for a file a handler CAN serve whose option values only look like numbers"""
+    for v in NEAR_NUMBERS:
+        for name in OPTION_NAMES_3:
+            yield rrq(b"f", rng.choice([b"octet", b"netascii", b"OCTET"]), [(name, v)])
+        yield rrq(b"f", b"octet", [(b"blksize", v), (b"timeout", v), (b"tsize", v)])
+        yield rrq(b"f", b"octet", [(b"blksize", b"512"), (b"BLKSIZE", v)])          # later duplicate (other case) wins
+        yield rrq(b"f", b"octet", [(b"timeout", v), (b"TimeOut", b"3")])
+
+
+def gen_single(tier, rng):
+    """cases = (datagram, handler set, source): source 0 = ordinary requester, 1 = requester with source port 0
+    (every reply to it fails in sendto)"""
     quick = tier == "quick"
     maxlen = 4 if quick else 5
     k = 0
     for d in all_datagrams(maxlen):
         k += 1
-        yield (d, k % len(HANDLER_SETS))
+        yield (d, k % len(HANDLER_SETS), 0)
+        if len(d) <= (3 if quick else 4):
+            yield (d, (k + 3) % len(HANDLER_SETS), 1)
+    for d in near_number_rrqs(tier, rng):
+        for hs in (SERVING_SETS if not quick else (rng.choice(SERVING_SETS),)):
+            yield (d, hs, 0)
+        if rng.random() < 0.2:
+            yield (d, rng.choice(SERVING_SETS), 1)
     for d in grammar_rrqs(rng, 1500 if quick else 15000):
         for hs in ((rng.randrange(len(HANDLER_SETS)),) if quick else (0, rng.randrange(1, len(HANDLER_SETS)))):
-            yield (d, hs)
+            yield (d, hs, 0)
+        if rng.random() < 0.3:
+            yield (d, rng.randrange(len(HANDLER_SETS)), 1)
         for m in mutations(rng, d):
-            yield (m, rng.randrange(len(HANDLER_SETS)))
-    for hs in range(len(HANDLER_SETS)):            # every handler set against plain requests
+            yield (m, rng.randrange(len(HANDLER_SETS)), 1 if rng.random() < 0.15 else 0)
+    for hs in range(len(HANDLER_SETS)):            # every handler set against plain requests, both kinds of requester
         for fn in FILENAMES:
             for mode in (b"octet", b"NETASCII", b"mail"):
-                yield (rrq(fn, mode, []), hs)
-                yield (rrq(fn, mode, [(b"blksize", b"1428"), (b"BLKSIZE", b"8"), (b"blksize", b"9")]), hs)
+                for src in (0, 1):
+                    yield (rrq(fn, mode, []), hs, src)
+                yield (rrq(fn, mode, [(b"blksize", b"1428"), (b"BLKSIZE", b"8"), (b"blksize", b"9")]), hs, 0)
     for d in long_packets(rng, 100 if quick else 1500):
-        yield (d, rng.randrange(len(HANDLER_SETS)))
+        yield (d, rng.randrange(len(HANDLER_SETS)), 1 if rng.random() < 0.1 else 0)
+
+
+def gen_cases(tier, rng):
+    """case = (items, handler set, pktinfo kind); items = tuple of (datagram, source): what arrives during ONE run of
+    the serve loop.  Single datagrams first, then histories of 3-5 datagrams (a reply that cannot be sent, a started
+    transfer, an undecodable request ... followed by ordinary ones), then the recvmsg/ancillary-data variants."""
+    quick = tier == "quick"
+    pool = []
+    # the single-datagram scope arrives in groups of 8 per run of the serve loop (the reaction to a datagram does
+    # not depend on what arrived before it: theorem C09_serve_loop_total; a failing group is shrunk to one datagram)
+    groups = {}
+    for (d, h, src) in gen_single(tier, rng):
+        g = groups.setdefault(h, [])
+        g.append((d, src))
+        if len(g) == 8:
+            yield (tuple(g), h, None)
+            del g[:]
+        if len(pool) < 3000 and (len(d) > 4 or rng.random() < 0.02):
+            pool.append((d, src))
+    for h, g in groups.items():
+        if g:
+            yield (tuple(g), h, None)
+    special = [(b"\x00\x02", 1), (b"\x00\x01", 1), (rrq(b"f", b"octet", []), 1), (rrq(b"f", b"octet", []), 0),
+               (rrq(b"nofile", b"mail", []), 1), (b"\x00\x05\x00\x01x\x00", 1), (b"", 1), (b"\x00", 0),
+               (rrq(b"f", b"octet", [(b"blksize", b"1024x")]), 0), (rrq(b"f", b"octet", [(b"timeout", b"5s")]), 1)]
+    for _ in range(400 if quick else 6000):
+        k = rng.randrange(3, 6)
+        items = tuple(rng.choice(special) if rng.random() < 0.5 else rng.choice(pool) for _k in range(k))
+        yield (items, rng.randrange(len(HANDLER_SETS)), None)
+    for a in special:                                   # each special datagram alone
+        for h in range(len(HANDLER_SETS)):
+            yield ((a,), h, None)
+    for a in special:                                   # every special datagram first, second and last of three
+        for b in special[:6]:
+            yield ((a, b, special[3]), rng.choice(SERVING_SETS), None)
+            yield ((special[3], a, b), rng.choice(SERVING_SETS), None)
+    for pk in PKTINFO_KINDS[1:]:
+        for (d, src) in special + [rng.choice(pool) for _k in range(20 if quick else 300)]:
+            for h in (0, 3, 1):
+                yield (((d, src),), h, pk)
+        yield (tuple(special[:4]), 0, pk)
 
 
 # ----------------------------------------------------------------------------- evaluation
-def line(d, hs_index, obs):
-    return sx([[d, [handler_sx(s) for s in HANDLER_SETS[hs_index]]], obs])
+def line(d, hs_index, src, obs):
+    return sx([[d, [handler_sx(s) for s in HANDLER_SETS[hs_index]], SOURCES[src][1] != 0], obs])
 
 
 def evaluate(cases, ports, exclog):
-    obs = [ports[h].react(d, exclog) for (d, h) in cases]
-    outs = common.run_model("c09port", [line(d, h, o) for (d, h), o in zip(cases, obs)])
+    """-> [(case, impl observations per item, model observations per item, clauses failed on the model, ... on impl)]"""
+    obs = [ports[h].react([(d, SOURCES[src]) for (d, src) in items], exclog, pk) for (items, h, pk) in cases]
+    lines = [line(d, h, src, o) for (items, h, pk), ol in zip(cases, obs) for (d, src), o in zip(items, ol)]
+    outs = iter(common.run_model("c09port", lines))
     res = []
-    for (d, h), o, out in zip(cases, obs, outs):
-        if out.startswith("!") or out.startswith("#"):
-            raise RuntimeError(f"c09port: driver rejected case {d!r} -> {out[:100]}")
-        r = unsx(out)
-        res.append(((d, h), o, r[0], names(r[1]), names(r[2])))
+    for case, ol in zip(cases, obs):
+        ms, fm, fi = [], [], []
+        for (d, src), o in zip(case[0], ol):
+            out = next(outs)
+            if out.startswith("!") or out.startswith("#"):
+                raise RuntimeError(f"c09port: driver rejected case {case!r} -> {out[:100]}")
+            r = unsx(out)
+            ms.append(r[0])
+            fm += [x for x in names(r[1]) if x not in fm]
+            fi += [x for x in names(r[2]) if x not in fi]
+        res.append((case, ol, ms, fm, fi))
     return res
 
 
-def shrink(case, ports, exclog):
-    """greedy: drop bytes, then handlers are left alone (the handler set is part of the fixed scope)"""
-    d, h = case
+def is_known_shape(case, failed):
+    """exactly the situation of finding D22: the only failed clause is the logged OSError of a reply that could not be
+    sent (the Coq checker gives that clause only for a requester with source port 0, for the one attempted reply,
+    with nothing else wrong)"""
+    return any(src == 1 for (_d, src) in case[0]) and list(failed) == [UNSENDABLE_CLAUSE]
+
+
+def shrink(case, ports, exclog, keep):
+    """greedy: drop whole datagrams of a history, then bytes, while `keep(case, failed_clauses)` stays true"""
+    items, h, pk = case
     improved = True
     steps = 0
-    while improved and steps < 300:
+    while improved and steps < 400:
         improved = False
-        for i in range(len(d)):
-            cand = d[:i] + d[i + 1:]
+        cands = [items[:i] + items[i + 1:] for i in range(len(items))] if len(items) > 1 else []
+        for j, (d, src) in enumerate(items):
+            cands += [items[:j] + ((d[:i] + d[i + 1:], src),) + items[j + 1:] for i in range(len(d))]
+        if pk is not None:
+            cands.append(None)
+        for cand in cands:
             steps += 1
-            (_, _o, _m, _fm, fi), = evaluate([(cand, h)], ports, exclog)
-            if fi:
-                d = cand
+            c2 = (items, h, None) if cand is None else (cand, h, pk)
+            (_, _o, _m, _fm, fi), = evaluate([c2], ports, exclog)
+            if keep(c2, fi):
+                items, pk = c2[0], c2[2]
                 improved = True
                 break
-    return (d, h)
+            if steps >= 400:
+                break
+    return (items, h, pk)
 
 
 def show(case):
-    d, h = case
+    items, h, pk = case
+    d = items[-1][0]
     # "content"/"events" are present so that the show() of the TFTP transfer checks (C01.show) can print the case
-    return {"_extra": True, "part": "request-port", "datagram_hex": d.hex(),
-            "datagram": common._jsonable(d), "handlers": [[k, common._jsonable(a)] for (k, a) in HANDLER_SETS[h]],
+    return {"_extra": True, "part": "request-port",
+            "datagrams": [{"hex": x.hex(), "source": list(SOURCES[src])} for (x, src) in items],
+            "datagram_hex": d.hex(), "handlers": [[k, common._jsonable(a)] for (k, a) in HANDLER_SETS[h]],
+            "recvmsg_ancillary_data": pk,
+            "source_port_zero": any(SOURCES[src][1] == 0 for (_x, src) in items),
             "content": bytes(d), "events": []}
+
+
+def match_known(entry, case, failed):
+    """for C09.match_known: finding D22 = a datagram from source port 0 that requires a reply; the reply is attempted
+    once, sendto fails, the catch-all logs the OSError with a traceback, the server keeps serving"""
+    return (entry.get("id") == "D22" and isinstance(case, dict) and case.get("part") == "request-port"
+            and case.get("source_port_zero") is True and list(failed) == [UNSENDABLE_CLAUSE])
 
 
 def port_checks(tier, rng, report):
@@ -266,21 +486,36 @@ def port_checks(tier, rng, report):
     logger.setLevel(logging.DEBUG)
     logger.propagate = False
     stats = {"port_evaluations": 0, "port_disagreements": 0, "port_impl_failures": 0, "port_model_failures": 0,
+             "port_source_port_zero_cases": 0, "port_unsendable_reply_logged_D22": 0, "port_histories": 0,
+             "port_recvmsg_cases": 0,
              "port_reactions": {"nothing": 0, "error1": 0, "error2": 0, "error4": 0, "start": 0, "other": 0}}
     failing = []
+    known_like = []
+    out = []
     try:
         ports = [Port(specs) for specs in HANDLER_SETS]
         batch = []
 
         def flush():
             for (case, o, m, fm, fi) in evaluate(batch, ports, exclog):
-                stats["port_evaluations"] += 1
-                key = ("nothing" if not o else
-                       "start" if o[0][0] == 1 and len(o) == 1 else
-                       f"error{o[0][1]}" if o[0][0] == 5 and len(o) == 1 and o[0][1] in (1, 2, 4) else "other")
-                stats["port_reactions"][key] += 1
+                stats["port_evaluations"] += len(case[0])
+                stats["port_histories"] += 1 if len(case[0]) > 1 else 0
+                stats["port_recvmsg_cases"] += 1 if case[2] is not None else 0
+                for (d_, src_), oi in zip(case[0], o):
+                    stats["port_source_port_zero_cases"] += src_
+                    core = [x for x in oi if x != [4]]
+                    key = ("nothing" if not core else
+                           "start" if core[0][0] == 1 and len(core) == 1 else
+                           f"error{core[0][1]}" if core[0][0] == 5 and len(core) == 1 and core[0][1] in (1, 2, 4)
+                           else "other")
+                    stats["port_reactions"][key] += 1
                 if o != m:
                     stats["port_disagreements"] += 1
+                if is_known_shape(case, fi) and o == m:
+                    stats["port_unsendable_reply_logged_D22"] += 1
+                    if len(known_like) < 1:
+                        known_like.append((case, fi, o, m))
+                    continue
                 if fm:
                     stats["port_model_failures"] += 1
                 if fi or o != m:
@@ -295,12 +530,15 @@ def port_checks(tier, rng, report):
                 if len(failing) >= 5:
                     break
         flush()
-        out = []
         for (case, fi, o, m) in failing[:2]:
-            small = shrink(case, ports, exclog) if fi else case
+            small = shrink(case, ports, exclog, lambda c, f: bool(f) and not is_known_shape(c, f)) if fi else case
             (_, o2, m2, _fm, fi2), = evaluate([small], ports, exclog)
             if not fi2:
                 small, o2, m2, fi2 = case, o, m, fi
+            out.append((show(small), fi2, common._jsonable(o2), common._jsonable(m2)))
+        for (case, fi, o, m) in known_like:
+            small = shrink(case, ports, exclog, is_known_shape)
+            (_, o2, m2, _fm, fi2), = evaluate([small], ports, exclog)
             out.append((show(small), fi2, common._jsonable(o2), common._jsonable(m2)))
     finally:
         logger.removeHandler(exclog)
@@ -332,12 +570,16 @@ def main(argv=None):
     report = {"evaluations": 0, "extra": {}}
     out = port_checks(args.tier, random.Random(seed * 1000003 + 909), report)
     print(json.dumps(report["extra"]))
+    bad = 0
     for (case, fi, o, m) in out:
-        print("FAILURE", fi, json.dumps({k: v for k, v in case.items() if k not in ("content", "events")}))
+        known = match_known({"id": "D22"}, case, fi)
+        bad += 0 if known else 1
+        print("KNOWN-FINDING D22" if known else "FAILURE", fi,
+              json.dumps({k: v for k, v in case.items() if k not in ("content", "events")}))
         print("   impl :", o)
         print("   model:", m)
-    print(f"[C09-port] tier={args.tier} evaluations={report['evaluations']} failures={len(out)}")
-    return 1 if out else 0
+    print(f"[C09-port] tier={args.tier} evaluations={report['evaluations']} failures={bad}")
+    return 1 if bad else 0
 
 
 if __name__ == "__main__":
